@@ -80,6 +80,10 @@ KIND_CLASSES = {
 }
 
 
+def _reject(kind):
+    raise Reject(kind)
+
+
 def _isint(v):
     return type(v).__name__ in ("int", "SymInt", "bool", "SymBool", "EnumInteger", "HexDisplayedInteger")
 
@@ -187,7 +191,7 @@ def static_size(s, bitmode=False):
         return len(s[1]) // 2
     if k in ("constv",):
         return static_size(s[2], bitmode)
-    if k in ("enum", "flagsenum", "mapping", "hex", "oneof", "noneof", "rebuildlen", "default", "byteswapped", "bitsswapped"):
+    if k in ("enum", "flagsenum", "mapping", "hex", "oneof", "noneof", "rebuildlen", "default", "byteswapped", "bitsswapped", "adapt"):
         return static_size(s[1], bitmode)
     if k == "xor":
         return static_size(s[2], bitmode)
@@ -366,6 +370,11 @@ def enc(s, v, env=None, bitmode=False):
         if k == "default" and v is None:
             v = s[2]
         return enc(s[1], v, env, bitmode)
+    if k == "adapt":
+        if not _isint(v):
+            raise Reject("type")
+        from .common import _xor55
+        return enc(s[1], {"inc": lambda: v - 1, "xor": lambda: _xor55(v) if v >= 0 else _reject("range"), "cls": lambda: -v}[s[2]](), env, bitmode)
     if k == "oneof":
         if not any(same(v, x) for x in s[2]):
             raise Reject("validation")
@@ -556,7 +565,7 @@ def buildnone(x):
     if k == "optional":
         return True
     if k in ("enum", "flagsenum", "mapping", "hex", "oneof", "noneof", "nullterminated", "nullstripped", "byteswapped",
-             "bitsswapped", "bitwise", "bytewise", "rawcopy"):
+             "bitsswapped", "bitwise", "bytewise", "rawcopy", "adapt"):
         return buildnone(x[1])
     if k in ("xor", "pointer", "prefixed"):
         return buildnone(x[2])
@@ -708,6 +717,10 @@ def dec(s, buf, pos, env=None, bitmode=False):
         raise Reject("mapping")
     if k in ("hex", "rebuildlen", "default"):
         return dec(s[1], buf, pos, env, bitmode)
+    if k == "adapt":
+        from .common import _xor55
+        v, pos = dec(s[1], buf, pos, env, bitmode)
+        return {"inc": lambda: v + 1, "xor": lambda: _xor55(v), "cls": lambda: -v}[s[2]](), pos
     if k == "oneof":
         v, pos = dec(s[1], buf, pos, env, bitmode)
         if not any(same(v, x) for x in s[2]):
